@@ -467,6 +467,9 @@ func (r *Runner) assignVal(name string, prev expand.Variable, as *syntax.Assign,
 		if len(elems) > 0 && stringIndex(elems[0].Index) {
 			valType = "-A" // associative
 		}
+		if as.Append && prev.Kind == expand.Associative {
+			valType = "-A" // m+=([k]=v) adds to an associative array whatever the keys look like
+		}
 	}
 	if valType == "-A" {
 		amap := make(map[string]string, len(elems))
@@ -495,7 +498,20 @@ func (r *Runner) assignVal(name string, prev expand.Variable, as *syntax.Assign,
 			prev.Map = amap
 			return name, prev
 		}
-		// TODO
+		// m+=([k]=v): add the pairs to the existing ones.
+		switch prev.Kind {
+		case expand.Unknown:
+			prev.Kind = expand.Associative
+			prev.Map = amap
+		case expand.Associative:
+			// The map may be shared with a parent or child shell.
+			merged := maps.Clone(prev.Map)
+			if merged == nil {
+				merged = make(map[string]string, len(amap))
+			}
+			maps.Copy(merged, amap)
+			prev.Map = merged
+		}
 		return name, prev
 	}
 	// The base array which the new elements are set on; empty unless
